@@ -148,6 +148,13 @@ def genScalar (ty : FTy) (i c : Nat) : Val × Nat :=
   | .flag _ => (.flag (present i c), c + 1)
   | .enum names =>
     (if present i c && names.length > 0 then .opt (some (pick i (c + 1) names.length)) else .opt none, c + 2)
+  | .enumD names d =>
+    (if present i c && names.length > 0 then .nat (pick i (c + 1) names.length) else .nat d, c + 2)
+  | .b64 =>
+    let rnd := (List.range (mix i (c + 2) % 24)).map fun k => mix i (c + 3 + k) % 256
+    let cands : List (List Nat) := [[0], [255], [77], [77, 97], [77, 97, 110], [251, 255, 190], [0, 0, 0, 0],
+      "hello, world".toList.map Char.toNat, rnd]
+    (if present i c then .str (strOfBytes (cands[pick i (c + 1) cands.length]!)) else .str [], c + 30)
 
 mutual
   partial def genF (f : Field) (i c : Nat) : Val × Nat :=
@@ -161,8 +168,8 @@ mutual
     | .child _ fs mode =>
       if mode == .optional && !present i c then (.absent, c + 1)
       else let r := genFs fs i (c + 1); (.record r.1, r.2)
-    | .many _ fs =>
-      let n := if present i c then 1 + pick i (c + 1) 3 else 0
+    | .many _ fs ne =>
+      let n := if present i c || ne then 1 + pick i (c + 1) 3 else 0
       let r := genItems fs i (c + 2) n
       (.list r.1, r.2)
   partial def genFs (fs : List Field) (i c : Nat) : List Val × Nat :=
